@@ -36,7 +36,10 @@ STRENGTHENED = {
     'C02-m22', 'C05-m20', 'C05-m21', 'C05-m22', 'C06-m22', 'C07-m21', 'C07-m22', 'C09-m20', 'C09-m22', 'C10-m21',
     'C11-m22', 'C14-m21', 'C17-m20', 'C18-m22', 'C20-m20', 'C20-m21',
     # wave 8 (C05-m24: strengthened from the author's report before the first evaluation)
-    'C01-m24', 'C04-m25', 'C05-m24', 'C06-m25', 'C11-m23', 'C16-m25', 'C18-m25', 'C20-m23', 'C20-m25'}
+    'C01-m24', 'C04-m25', 'C05-m24', 'C06-m25', 'C11-m23', 'C16-m25', 'C18-m25', 'C20-m23', 'C20-m25',
+    # wave 9 (C16-m27: strengthened from the author's report before the first evaluation)
+    'C03-m26', 'C03-m27', 'C03-m28', 'C04-m26', 'C08-m26', 'C08-m27', 'C09-m26', 'C10-m26', 'C13-m26', 'C14-m28',
+    'C15-m26', 'C16-m27', 'C17-m27', 'C18-m27', 'C20-m26', 'C20-m27'}
 
 
 def title(notes):
@@ -85,8 +88,9 @@ def main():
         out.append('| %s | %s | %s | %s |' % (
             r[0], r[2].replace('|', '/'), r[3].replace('|', '/'), r[4]))
     n_c = sum(1 for r in rows if r[3] != 'NOT CAUGHT')
-    out += ['', '%d changes, %d reported by the check of their property.'
-            % (len(rows), n_c), '']
+    n_own = sum(1 for r in rows if any(x.strip().startswith(r[1] + ':') for x in r[3].split(';')))
+    out += ['', '%d changes, %d reported by the check of their own property, %d by the check of a '
+            'neighbouring property only, %d by none.' % (len(rows), n_own, n_c - n_own, len(rows) - n_c), '']
     with open(os.path.join(VERIF, 'seeded', 'README.md'), 'w') as f:
         f.write('\n'.join(out))
     print('%d rows, %d caught' % (len(rows), n_c))
